@@ -76,12 +76,13 @@ func (context *CHFContext) NewCHFUe(supi string) (*ChfUe, error) {
 	if strings.HasPrefix(supi, "imsi-") {
 		ue := ChfUe{}
 		ue.init()
+		ue.Supi = supi
 
-		if supi != "" {
-			context.AddChfUeToUePool(&ue, supi)
-		}
+		// A concurrent request may have created the context of this supi meanwhile:
+		// keep the one that was stored first so that no session is lost.
+		actual, _ := context.UePool.LoadOrStore(supi, &ue)
 
-		return &ue, nil
+		return actual.(*ChfUe), nil
 	} else {
 		return nil, fmt.Errorf(" add Ue context fail ")
 	}
